@@ -253,6 +253,12 @@ Definition mon_C02 : monitor := fun L s st s' =>
    | OPairReceive p c funds cs ca (HSwap offer amount _ _ to) =>
        (* a hook can only come from the named token contract, which never calls by itself *)
        false
+   (* a payload that is no hook message: if the pair nevertheless reports a swap, that swap must be the settlement of
+      exactly the n units of the token that was sent, in favour of the sender *)
+   | OSend ta sd p n HGarbage =>
+       if s_pair L s p 0 =? 1 then
+         match hs_extras st with [] => true | ex => swap_settlement L s s' p sd [] (AToken ta) n None sd ex end
+       else true
    | _ => true
    end, false).
 
@@ -400,7 +406,10 @@ Definition mon_C04 : monitor := fun L s st s' =>
          (s_asset_bal L s' a0 p + x0 =? r0) && (s_asset_bal L s' a1 p + x1 =? r1) &&
          (x0 * S <=? r0 * a) && (r0 * a * D <? (x0 + 1) * S * D + r0 * S) &&
          (x1 * S <=? r1 * a) && (r1 * a * D <? (x1 + 1) * S * D + r1 * S)
-       else true
+       else
+         (* a withdraw hook relayed by a token that is NOT the pair's share token was honoured: a pair pays its reserves out
+            only against its own LP supply *)
+         negb (s_pair L s p 0 =? 1)
    | _ => true
    end, false).
 
@@ -518,6 +527,10 @@ Definition mon_C06 : monitor := fun L s st s' =>
        else true
    | OSend ta _ p k (HSwap (AToken tb) amount _ _ _) =>
        if mem_addr p (existing_pairs L s) && (ta =? tb) && (k =? amount) then chk p (AToken ta) amount 0 else true
+   (* a direct Swap naming a cw20 (nothing was delivered with the call): if the pair serves it, it is a swap of that amount
+      against the reserves it held *)
+   | OSwap p _ [] (AToken t) amount _ _ _ =>
+       if mem_addr p (existing_pairs L s) then chk p (AToken t) amount 0 else true
    (* the rate the pair applies and describes is the rate it was created with (it travels there as a decimal string through
       the factory's message, the pair's instantiate message and storage) *)
    | OFacCreatePair _ _ _ _ _ _ comm _ =>
